@@ -221,7 +221,7 @@ TRoot == /\ Good("root")
                 garbled == ~HasMissing(Ev.link) /\ ~(KeysKnown(Ev.link) /\ \A i \in DOMAIN Ev.w : KeysKnown(<<Ev.w[i]>>))
                 missing == HasMissing(Ev.link) \/ garbled
                 newroot == [id |-> Ev.r, root |-> Ev.link, height |-> Ev.rh, size |-> Ev.rs, model |-> t.model,
-                            ok |-> \E i \in DOMAIN Ev.robs : Ev.robs[i].r = Ev.r /\
+                            ok |-> ~missing /\ \E i \in DOMAIN Ev.robs : Ev.robs[i].r = Ev.r /\
                                      ~RObsBad(Ev.robs[i], [model |-> t.model])]
                 vfail == IF Ev.res # "ok" THEN {V("C03", "persisting fails on a healthy store", Ev.h)} ELSE {}
                 vmiss == IF Ev.res = "ok" /\ garbled THEN {V("C05", "the persisted tree does not decode back to keys that were inserted (in the tree's own node format)", Ev.h)}
